@@ -4,6 +4,7 @@ package c18
 
 import (
 	"fmt"
+	"runtime/debug"
 	"slices"
 	"sort"
 	"strings"
@@ -217,6 +218,24 @@ func fileOptionConst(name string) (bufconfig.FileOption, error) {
 	return c, nil
 }
 
+// safeModify calls Modify and turns a panic into a value: a crash on a valid image and a valid config is a
+// violation (managed mode was not applied), not a harness failure.
+func safeModify(image bufimage.Image, config bufconfig.GenerateManagedConfig) (err error, panicked string) {
+	defer func() {
+		if p := recover(); p != nil {
+			stack := string(debug.Stack())
+			if i := strings.Index(stack, "bufimagemodify."); i >= 0 {
+				stack = stack[i:]
+			}
+			if len(stack) > 600 {
+				stack = stack[:600] + "…"
+			}
+			err, panicked = nil, fmt.Sprintf("%v [at %s]", p, strings.ReplaceAll(stack, "\n", " | "))
+		}
+	}()
+	return bufimagemodify.Modify(image, config), ""
+}
+
 // runOracle applies managed mode to image and checks the four clauses. infos describes the files.
 func runOracle(image bufimage.Image, infos map[string]fileInfo, m managedSpec) *verdict {
 	v := &verdict{}
@@ -234,7 +253,11 @@ func runOracle(image bufimage.Image, infos map[string]fileInfo, m managedSpec) *
 	for _, f := range beforeImage.Files() {
 		before[f.Path()] = f.FileDescriptorProto()
 	}
-	if err := bufimagemodify.Modify(image, config); err != nil {
+	err, panicked := safeModify(image, config)
+	if panicked != "" {
+		return fail(v, "modify-panic", "bufimagemodify.Modify panicked on a valid image and a valid managed config (form %s, enabled=%v, disable=%+v, override=%+v): %s", m.Form, m.Enabled, m.Disables, m.Overrides, panicked)
+	}
+	if err != nil {
 		return fail(v, "modify-error", "bufimagemodify.Modify failed on a valid image and a valid managed config: %v", err)
 	}
 	if len(image.Files()) != len(before) {
